@@ -17,6 +17,7 @@ from c07_lib import *
 KEY_AUTOSAVE = 'F-C07-autosave-writers-not-drained'
 KEY_TRUNC = 'F-C07-parity-truncated-before-content-save'
 KEY_PREHASH = 'F-C07-prehash-loses-empty-marker'
+KEY_REDHASH = 'F-C07-reduced-hash-ignores-empty-marker'
 LOAD_FAIL = re.compile(r'content file.*(damaged|truncated)|Error reading the content|Unexpected end of content|No content file|Error decoding', re.I)
 WRITE_CALLS = ('write', 'pwrite')
 
@@ -25,7 +26,8 @@ def clone(a):
     """an independent copy of the whole array (data, parity, content) with its own configuration"""
     root2 = mkscratch('c07c.')
     shutil.copytree(a.root, root2, symlinks=True, dirs_exist_ok=True)
-    b = Array(a.bin, nd=a.nd, np_=a.np, ncontent=len(a.content_files), shim=a.shim, root=root2)
+    b = Array(a.bin, nd=a.nd, np_=a.np, ncontent=len(a.content_files), shim=a.shim, root=root2, splits=getattr(a, 'splits_', 1), hashsize=getattr(a, 'hashsize_', None))
+    b.splits_, b.hashsize_ = getattr(a, 'splits_', 1), getattr(a, 'hashsize_', None)
     b.store = a.store
     return b
 
@@ -65,10 +67,10 @@ class SyncKill:
         self.force = ['--force-empty'] if scn.name == 'wipe' else []       # every file of a disk removed: sync refuses without -E
         self.opts = ['--test-io-cache', str(cache)] + (['--test-force-autosave-at', str(autosave_at)] if autosave_at else []) + self.force + list(extra)
         self.extra = list(extra)
-        self.adds_only = scn.name in ('adds', 'adds3', 'fresh')
+        self.adds_only = scn.name in ('adds', 'adds3', 'addsfit', 'fresh')
         self.synced_before = [(op[1], op[2]) for ph in scn.pre for op in ph if op[0] == 'write'] if self.adds_only else []
         self.stats = {'kills': 0, 'content_loads': 0, 'kill_inv_stripes': 0, 'resumed': 0, 'c01_recoveries': 0, 'adds_recoveries': 0,
-                      'torn_write_np1_unrecoverable': 0, 'torn_total': 0, 'autosave_race_hits': 0}
+                      'torn_write_np1_unrecoverable': 0, 'reduced_hash_np1_unrecoverable': 0, 'torn_total': 0, 'autosave_race_hits': 0}
         self.desc = dict(scn.describe(), io_cache=cache, autosave_at=autosave_at, options=list(extra))
         self.reference()
 
@@ -179,12 +181,18 @@ class SyncKill:
                     if torn:
                         self.stats['torn_total'] += 1
                     if bad:
+                        redhash = (self.scn.hashsize or 16) < 16 and dev[0] == 'd' and not torn and a.np == 1
                         if torn and a.np == 1:
                             self.stats['torn_write_np1_unrecoverable'] += 1     # Q-C07: measured, not a violation
+                        elif redhash and not any(k_.get('key') == KEY_REDHASH and k_.get('status') == 'open' and k_.get('property') == 'C07' for k_ in chk.kf):
+                            # reduced hash size: hash_is_zero() is constant 0 (elem.h), the "block was empty" marker of CHG blocks is not
+                            # seen by fix; same root cause as the open F-C05d-reduced-hash-markers-ignored (property C05).  Reported to the
+                            # lead as candidate F-C07-reduced-hash-ignores-empty-marker; counted here until a C07 key is registered
+                            self.stats['reduced_hash_np1_unrecoverable'] += 1
                         else:
                             # with -h the additions are REP blocks (hash of the new data) instead of CHG/ZERO: the open finding
                             chk.violation('adds_only', 'sync %s(additions only) killed at call %d (%s): after losing %s, fix does not restore the previously synced %s' % (
-                                ' '.join(self.extra) + ' ' if self.extra else '', k, mode, dev, bad[:2]), rep, finding_key=KEY_PREHASH if ('-h' in self.extra and dev[0] == 'd' and not torn and a.np == 1) else None)
+                                ' '.join(self.extra) + ' ' if self.extra else '', k, mode, dev, bad[:2]), rep, finding_key=(KEY_PREHASH if '-h' in self.extra else (KEY_REDHASH if (self.scn.hashsize or 16) < 16 else None)) if (dev[0] == 'd' and not torn and a.np == 1) else None)
             # 5. the next sync completes and re-establishes the guarantee
             rs = a.run('sync', *self.force)
             if rs.rc != 0:
@@ -411,7 +419,7 @@ def signal_case(chk, scn, slow, cache, k, sig, model, stats, extra=()):
         view = stripe_view(a, st)
         # adds only: the files synced before are recoverable from up to np lost devices
         synced_before = [(op[1], op[2]) for ph in scn.pre for op in ph if op[0] == 'write']
-        if scn.name in ('adds', 'adds3', 'fresh') and synced_before:
+        if scn.name in ('adds', 'adds3', 'addsfit', 'fresh') and synced_before:
             devs = [('d', dn) for dn in a.disks] + [('p', l) for l in range(a.np)]
             start = (k * 7 + int(sig)) % len(devs)
             lost = [devs[(start + j) % len(devs)] for j in range(a.np)]
@@ -822,6 +830,66 @@ class ReaddHistory:
             drop(a)
 
 
+class ResaveHistory:
+    """new files are added; `sync -h` (the pre-hash phase records them as REP blocks with the hash of their data) is killed at every
+    call; the new file is then saved again with the SAME bytes and a new time stamp; a normal sync follows.  Whatever the first run
+    had written, the second must leave valid parity: independent parity check, `check`, recovery of every disk."""
+
+    def __init__(self, chk, binary, shim, cache=3, opts=('-h',)):
+        self.chk, self.binary, self.shim, self.cache, self.opts = chk, binary, shim, cache, list(opts)
+        self.scn = Scn(binary, shim, 'addsfit', 2, 1)
+        self.stats = {'histories': 0, 'passed': 0}
+        a = self.scn.build()
+        log = os.path.join(a.root, 'ref.log')
+        a.run('sync', '--test-io-cache', str(cache), *self.opts, shim_env={'VSHIM_LOG': log})
+        self.calls = shim_log(log)
+        drop(a)
+
+    def points(self):
+        return [('kill-after-sync', None)] + [(n, m) for (n, call, path, rest) in self.calls for m in ('before', 'after')]
+
+    def case(self, pt):
+        chk = self.chk
+        if len(chk.violations) > 8:
+            return
+        a = self.scn.build()
+        rep = {'history': 'add d2/n; sync %s interrupted at %s; d2/n saved again with the same bytes; sync' % (' '.join(self.opts), pt), 'io_cache': self.cache}
+        try:
+            if pt[0] == 'kill-after-sync':
+                a.run('sync', '--test-io-cache', str(self.cache), '--test-kill-after-sync', *self.opts)
+            else:
+                a.run('sync', '--test-io-cache', str(self.cache), *self.opts, shim_env={'VSHIM_KILL': '%d:%s' % pt if pt[1] != 'before' else str(pt[0])})
+            self.stats['histories'] += 1
+            data = a.store[('d2', 'n')][0][0]
+            a.write('d2', 'n', data, mtime_ns=T0 + 77777 * 10**9)
+            rs = a.run('sync', '--test-io-cache', str(self.cache))
+            st = a.content()
+            left = all_synced(a, st)
+            perr, _ = a.check_parity(st)
+            rck = a.run('check')
+            if rs.rc != 0 or left or perr or rck.rc != 0:
+                chk.violation('resave', 'additions, `sync %s` interrupted (%s), identical re-save, sync (rc %d): unsynced %s, %s, check rc %d %s' % (
+                    ' '.join(self.opts), pt, rs.rc, left, perr[:2], rck.rc, rck.summary()), rep)
+                return
+            final = a.snapshot_data()
+            for dname in a.disks:
+                b = clone(a)
+                try:
+                    lose(b, ('d', dname))
+                    rf = b.run('fix', '-d', dname)
+                    got = {kk: v for kk, v in b.snapshot_data().items() if kk[0] == dname}
+                    exp = {kk: v for kk, v in final.items() if kk[0] == dname}
+                    dd = data_equal(exp, got)
+                    if rf.rc != 0 or dd:
+                        chk.violation('resave_c01', 'additions, `sync %s` interrupted (%s), identical re-save, sync: losing %s is not recovered (fix rc %d): %s' % (' '.join(self.opts), pt, dname, rf.rc, dd[:3]), rep)
+                        return
+                finally:
+                    drop(b)
+            self.stats['passed'] += 1
+        finally:
+            drop(a)
+
+
 # -------------------------------------------------------------------------------------------------- the autosave race witness
 def autosave_witness(chk, binary, shim, slow):
     """replay of kill_inv_refuted_autosave_threaded: threaded sync with an autosave, parity writes delayed, killed right after the
@@ -909,10 +977,23 @@ def main(tier, replay=None):
     tot = {}
     conf_sum = []
     traces_ok = 0
+    import time as _t
+    phase = {}
+    t_ph = [_t.time()]
+
+    def lap(nm):
+        phase[nm] = round(phase.get(nm, 0) + _t.time() - t_ph[0], 1); t_ph[0] = _t.time()
     # the same with the pre-hash phase (-h) and with the GUI progress lines (-G)
     confs = [cf + ((),) for cf in confs] + [('adds', 2, 1, 3, 1, 0, ('-h',)), ('mixed', 3, 2, 1, 1, 0, ('-h', '-G'))][:1 if quick else 2]
+    # version 3 content files (split parity / reduced hash size) with additions that fit inside the existing parity: nothing but
+    # the additions asks for the content save that precedes the sync loop
+    confs += [('addsfit', 2, 1, 3, 1, 0, ('splits=2',)), ('addsfit', 2, 1, 1, 1, 0, ('hashsize=8',))]
+    if not quick:
+        confs += [('addsfit', 3, 2, 8, 2, 0, ('splits=2', 'hashsize=12')), ('adds', 2, 1, 3, 1, 0, ('splits=2',)), ('addsfit', 2, 2, 3, 1, 4, ('splits=2',))]
     for (name, nd, np_, cache, ncontent, autosave_at, extra) in confs:
-        scn = Scn(binary, shim, name, nd, np_, ncontent=ncontent)
+        geo = {kv.split('=')[0]: int(kv.split('=')[1]) for kv in extra if '=' in kv}
+        extra = tuple(x for x in extra if '=' not in x)
+        scn = Scn(binary, shim, name, nd, np_, ncontent=ncontent, splits=geo.get('splits', 1), hashsize=geo.get('hashsize'))
         try:
             K = SyncKill(chk, scn, cache, autosave_at, model, full_c01=not quick, extra=extra)
         except Exception as e:
@@ -927,6 +1008,7 @@ def main(tier, replay=None):
         for k, v in K.stats.items():
             tot[k] = tot.get(k, 0) + v
         conf_sum.append(dict(K.desc, calls=K.ncalls, kill_points=len(pts)))
+        lap('sync_kill %s nd%d np%d c%d a%d %s' % (name, nd, np_, cache, autosave_at, ' '.join(extra) + str(geo or '')))
         if len(chk.violations) > 8:
             break
     # ---- delete / interrupted sync / identical re-add
@@ -940,8 +1022,21 @@ def main(tier, replay=None):
         pmap(RH.case, RH.points())
         for k, v in RH.stats.items():
             rstats[k] = rstats.get(k, 0) + v
+    lap('readd')
+    # ---- additions, sync -h interrupted, the new file saved again with the same bytes, sync
+    for (cache_, opts_) in ([(3, ('-h',))] if quick else [(3, ('-h',)), (1, ('-h',)), (8, ())]):
+        try:
+            RS = ResaveHistory(chk, binary, shim, cache_, opts_)
+        except Exception as e:
+            chk.violation('setup', 'resave history cannot be prepared: %s' % e, {}, no_input=True)
+            continue
+        pmap(RS.case, RS.points())
+        rstats['resave_histories'] = rstats.get('resave_histories', 0) + RS.stats['histories']
+        rstats['resave_passed'] = rstats.get('resave_passed', 0) + RS.stats['passed']
+    lap('resave')
     # ---- the autosave race (known finding), deterministic replay
     aw = autosave_witness(chk, binary, shim, slow)
+    lap('autosave_witness')
     # ---- (a) graceful stops
     sstats = {'signals': 0, 'stopped_early': 0, 'stripes_checked': 0, 'multi_recoveries': 0}
     sconfs = [('adds', 2, 2, 1), ('adds', 2, 2, 3), ('wipe', 2, 1, 1)] if quick else [('wipe', 2, 1, 1), ('wipe', 3, 2, 3), ('adds', 2, 2, 1), ('adds', 2, 2, 3), ('mixed', 3, 2, 1), ('adds', 3, 3, 8), ('fresh', 2, 1, 1), ('mixed', 2, 1, 3)]
@@ -956,6 +1051,7 @@ def main(tier, replay=None):
                     scases.append((scn, cache, k, sig, ('-G',)))        # the GUI variant of the progress / interruption report
                     scases.append((scn, cache, k, sig, ('-h',)))        # with the pre-hash phase
     pmap(lambda c: signal_case(chk, c[0], slow, c[1], c[2], c[3], model, sstats, c[4]), scases, workers=8)
+    lap('signals')
     # ---- (c) fix killed at every call, then re-run
     fstats = {}
     fconf = []
@@ -974,6 +1070,7 @@ def main(tier, replay=None):
         for k, v in F.stats.items():
             fstats[k] = fstats.get(k, 0) + v
         fconf.append({'np': np_, 'calls': len(F.calls), 'kill_points': len(pts)})
+    lap('fix_kill')
     # ---- a second fix over .unrecoverable leftovers, stopped gracefully (partial runs, signals)
     lstats = {}
     try:
@@ -984,14 +1081,16 @@ def main(tier, replay=None):
         lstats = FL.stats
     except Exception as e:
         chk.violation('setup', 'fix leftovers scenario cannot be prepared: %s' % e, {}, no_input=True)
+    lap('fix_leftovers')
     probe = unrecoverable_rerun_probe(binary, shim)
-    n_eval = tot.get('kills', 0) + sstats['signals'] + fstats.get('kills', 0) + rstats.get('histories', 0) + lstats.get('partial_runs', 0) + lstats.get('signals', 0)
+    lap('probe')
+    n_eval = tot.get('kills', 0) + sstats['signals'] + fstats.get('kills', 0) + rstats.get('histories', 0) + rstats.get('resave_histories', 0) + lstats.get('partial_runs', 0) + lstats.get('signals', 0)
     chk.cov.update({'evaluations': n_eval, 'distinct_nontrivial': n_eval,
                     'rule': 'EVERY numbered state-changing call k of a reference sync (and of a reference fix) x {before, after, short for write/pwrite}: one fresh deterministic array per point, killed there; SIGINT/SIGTERM at every parity write of slowed syncs; non-trivial = runs really interrupted',
                     'sync_kill_configurations': conf_sum, 'sync_kill': tot, 'graceful_stop': sstats, 'fix_kill_configurations': fconf, 'fix_kill': fstats, 'delete_kill_identical_readd': rstats, 'second_fix_over_unrecoverable_leftovers': lstats,
-                    'torn_write_np1_unrecoverable': tot.get('torn_write_np1_unrecoverable', 0), 'autosave_race': aw,
+                    'torn_write_np1_unrecoverable': tot.get('torn_write_np1_unrecoverable', 0), 'reduced_hash_np1_unrecoverable': tot.get('reduced_hash_np1_unrecoverable', 0), 'autosave_race': aw,
                     'fix_rerun_after_unrecoverable_result (measured, not judged)': probe,
-                    'traces_validated_against_impl': traces_ok})
+                    'traces_validated_against_impl': traces_ok, 'phase_seconds': phase})
     chk.cov['samples'] = conf_sum[:3] + fconf[:1]
     if ob['failed'] and not chk.violations:
         chk.violation('obligation', 'proof obligation of C07 no longer checks: %s' % ob['failed'][0],
